@@ -142,7 +142,7 @@ Qed.
 Theorem history_nz cf mat h : forall st, nz_state (fst st) -> nz_state (fst (history_run cf mat st h)).
 Proof.
   induction h as [|e r IH]; intros st H; simpl; [exact H|]. apply IH. destruct st as [s c]. destruct e as [b|]; simpl.
-  - unfold connect. destruct (block_sanity_ok b && block_context_ok cf mat (chain_height c) s b && (b_prev b =? s_tip s)); [|exact H].
+  - unfold connect. destruct (block_sanity_ok b && block_context_ok cf mat (chain_height c) s b && (b_prev b =? s_tip s) && (b_height b =? chain_height c + 1)); [|exact H].
     destruct (save_block s b) eqn:E; simpl; try exact H. eapply save_block_nz; eauto.
   - destruct (rev c) as [|b [|b2 r0]]; try exact H. destruct (rollback_block cf s b) eqn:E; simpl; try exact H. eapply rollback_block_nz; eauto.
 Qed.
